@@ -1,16 +1,20 @@
 package main
 
-// The real IP client with NTS (client.MeasureClockOffsetIP, Auth.Enabled) against
-// a scripted peer on loopback: a minimal NTS-KE server over TLS 1.3 (the session
-// keys are exported on both ends by ntske.ExportKeys) and a UDP peer that answers
-// the client's request with a scripted sequence of datagrams: 0-3 forged ones
-// (bad tag, authenticated header byte changed, sealed under another key, sealed
-// under the C2S key, genuine seal but another unique identifier, replayed
-// response of the client's previous request) before or instead of the genuine
-// response, with and without a context deadline.  Every datagram carries the
-// request's origin timestamp and sane NTP metadata, and server timestamps that
-// are shifted by (k+1)*1000 s for the k-th datagram, so the offset the client
-// returns tells which datagram the measurement was computed from.  kind cl.ip.
+// The real clients with NTS (client.MeasureClockOffsetIP with Auth.Enabled, kind
+// cl.ip; client.MeasureClockOffsetSCION with Auth.NTSEnabled and the SCION packet
+// authenticator under the DRKey mock key, kind cl.scion) against a scripted peer
+// on loopback: a minimal NTS-KE server over TLS 1.3 (the session keys are
+// exported on both ends by ntske.ExportKeys) and a UDP peer that answers the
+// client's request with a scripted sequence of datagrams: 0-3 forged ones (bad
+// tag, authenticated header byte changed, sealed under another key, sealed under
+// the C2S key, genuine seal but another unique identifier, the response to the
+// client's previous request replayed byte for byte or with this request's origin
+// timestamp) before or instead of the genuine response, with and without a
+// context deadline.  Every forged datagram but the byte-for-byte replay carries
+// the request's origin timestamp and sane NTP metadata, and server timestamps
+// that are shifted by (k+1)*1000 s for the k-th datagram, so the offset the
+// client returns tells which datagram the measurement was computed from.  On
+// SCION every datagram of the peer carries a valid packet authenticator.
 
 import (
 	"bytes"
@@ -23,10 +27,16 @@ import (
 	"sync"
 	"time"
 
+	"github.com/scionproto/scion/pkg/addr"
+	"github.com/scionproto/scion/pkg/snet"
+	spath "github.com/scionproto/scion/pkg/snet/path"
+
 	"example.com/scion-time/core/client"
 	"example.com/scion-time/net/ntp"
 	"example.com/scion-time/net/nts"
 	"example.com/scion-time/net/ntske"
+	"example.com/scion-time/net/scion"
+	"example.com/scion-time/net/udp"
 
 	"verifharness/lib"
 )
@@ -70,6 +80,8 @@ func getPeer(seed uint64) *clPeer {
 	return p
 }
 
+func (p *clPeer) port() int { return p.udp.LocalAddr().(*net.UDPAddr).Port }
+
 // keLoop answers every key exchange with eight cookies and the address and
 // port of the scripted UDP peer, and remembers the exported keys.
 func (p *clPeer) keLoop() {
@@ -106,7 +118,7 @@ func (p *clPeer) keLoop() {
 			}
 			p.mu.Unlock()
 			msg.AddRecord(ntske.Server{Addr: []byte(p.ip.String())})
-			msg.AddRecord(ntske.Port{Port: uint16(p.udp.LocalAddr().(*net.UDPAddr).Port)})
+			msg.AddRecord(ntske.Port{Port: uint16(p.port())})
 			msg.AddRecord(ntske.End{})
 			buf, err := msg.Pack()
 			if err != nil {
@@ -129,15 +141,17 @@ const shiftStep = 1000 * time.Second
 
 // one datagram of a script
 type dgram struct {
-	b      []byte
-	h      *honest  // the packet an honest party sealed (nil for junk)
-	forged [][]byte // cookies it carries, if it is not the genuine response
+	b       []byte
+	h       *honest  // the packet an honest party sealed (nil for junk)
+	cookies [][]byte // the cookies it carries (clear and encrypted)
+	genuine bool
 }
 
 // prevExchange: the genuine response to the client's previous request
 type prevExchange struct {
-	b []byte
-	h *honest
+	b       []byte
+	h       *honest
+	cookies [][]byte
 }
 
 func honestOf(b, key []byte, dir int, uid []byte) *honest {
@@ -148,8 +162,7 @@ func honestOf(b, key []byte, dir int, uid []byte) *honest {
 	return &honest{b: b, pos: authPos(&pkt), nonce: pkt.Auth.Nonce, ct: pkt.Auth.CipherText, key: key, dir: dir, uid: uid}
 }
 
-// build makes datagram k of a script for the request req (raw bytes, decoded
-// header and NTS fields).
+// build makes datagram k of a script for the request (decoded header and NTS fields).
 func (p *clPeer) build(r *lib.Rng, kind string, k int, ntpreq *ntp.Packet, ntsreq *nts.Packet, s2c, c2s []byte, prev *prevExchange) dgram {
 	uid := ntsreq.UniqueID.ID
 	now := time.Now().Add(time.Duration(k+1) * shiftStep)
@@ -184,8 +197,8 @@ func (p *clPeer) build(r *lib.Rng, kind string, k int, ntpreq *ntp.Packet, ntsre
 	}
 	switch kind {
 	case "G":
-		b, _ := seal(s2c, uid, false)
-		return dgram{b: b, h: honestOf(b, s2c, 1, uid)}
+		b, cs := seal(s2c, uid, false)
+		return dgram{b: b, h: honestOf(b, s2c, 1, uid), cookies: cs, genuine: true}
 	case "T", "H":
 		g, cs := seal(s2c, uid, false)
 		h := honestOf(g, s2c, 1, uid)
@@ -195,46 +208,70 @@ func (p *clPeer) build(r *lib.Rng, kind string, k int, ntpreq *ntp.Packet, ntsre
 		} else {
 			b[4+r.Intn(12)] ^= 1 << r.Intn(8) // root delay, root dispersion, reference id: authenticated, not checked otherwise
 		}
-		return dgram{b: b, h: h, forged: cs}
+		return dgram{b: b, h: h, cookies: cs}
 	case "K":
 		key := r.Bytes(len(s2c))
 		b, cs := seal(key, uid, true)
-		return dgram{b: b, h: honestOf(b, key, 1, uid), forged: cs}
+		return dgram{b: b, h: honestOf(b, key, 1, uid), cookies: cs}
 	case "D":
 		b, cs := seal(c2s, uid, true)
-		return dgram{b: b, h: honestOf(b, c2s, 0, uid), forged: cs}
-	case "R":
+		return dgram{b: b, h: honestOf(b, c2s, 0, uid), cookies: cs}
+	case "R", "P":
 		if prev != nil {
 			b := clone(prev.b)
-			copy(b[24:32], hdr[24:32]) // the origin timestamp of this request
-			copy(b[32:48], hdr[32:48]) // and this datagram's server timestamps
-			return dgram{b: b, h: prev.h}
+			if kind == "R" {
+				copy(b[24:32], hdr[24:32]) // the origin timestamp of this request
+				copy(b[32:48], hdr[32:48]) // and this datagram's server timestamps
+			}
+			return dgram{b: b, h: prev.h, cookies: prev.cookies}
 		}
 		fallthrough
 	default: // "U": genuine seal under the S2C key, for another request
 		other := r.Bytes(32)
 		b, cs := seal(s2c, other, true)
-		return dgram{b: b, h: honestOf(b, s2c, 1, other), forged: cs}
+		return dgram{b: b, h: honestOf(b, s2c, 1, other), cookies: cs}
 	}
 }
 
-// exchange runs one MeasureClockOffsetIP of c against the script and records the case.
-func (p *clPeer) exchange(r *lib.Rng, c *client.IPClient, script []string, deadline bool, prev *prevExchange) *prevExchange {
-	quiet := slog.New(quietHandler{})
+// a client under test: the call and a view of its cookie store
+type clientUT struct {
+	kind  string
+	scion bool
+	call  func(ctx context.Context) (time.Duration, error)
+	store func() [][]byte
+}
+
+func minus(a, b [][]byte) [][]byte {
+	used := make([]bool, len(b))
+	var out [][]byte
+next:
+	for _, x := range a {
+		for i, y := range b {
+			if !used[i] && bytes.Equal(x, y) {
+				used[i] = true
+				continue next
+			}
+		}
+		out = append(out, x)
+	}
+	return out
+}
+
+// exchange runs one measurement of c against the script and records the case.
+func (p *clPeer) exchange(r *lib.Rng, c *clientUT, script []string, deadline bool, prev *prevExchange) *prevExchange {
 	ctx, cancel := context.Background(), func() {}
 	if deadline {
 		ctx, cancel = context.WithTimeout(ctx, 8*time.Second)
 	}
 	defer cancel()
-	la := &net.UDPAddr{IP: p.ip}
-	ra := &net.UDPAddr{IP: p.ip, Port: p.udp.LocalAddr().(*net.UDPAddr).Port}
+	before := c.store()
 	var (
 		off  time.Duration
 		cerr error
 	)
 	done := make(chan struct{})
 	go func() {
-		_, off, cerr = client.MeasureClockOffsetIP(ctx, quiet, c, la, ra)
+		off, cerr = c.call(ctx)
 		close(done)
 	}()
 	// the request
@@ -246,6 +283,15 @@ func (p *clPeer) exchange(r *lib.Rng, c *client.IPClient, script []string, deadl
 		panic(fmt.Sprintf("c10 client peer: no request arrived (%v); the client said: %v", err, cerr))
 	}
 	raw := clone(buf[:n])
+	var rq scPkt
+	if c.scion {
+		var ok bool
+		rq, ok = parseSC(raw, scion.PacketAuthSPIClient)
+		if !ok || !rq.hasAuth {
+			panic("c10 client peer: the SCION client's request does not parse or lacks a valid packet authenticator")
+		}
+		raw = rq.payload
+	}
 	var ntpreq ntp.Packet
 	var ntsreq nts.Packet
 	if ntp.DecodePacket(&ntpreq, raw) != nil || nts.DecodePacket(&ntsreq, raw) != nil {
@@ -255,6 +301,9 @@ func (p *clPeer) exchange(r *lib.Rng, c *client.IPClient, script []string, deadl
 	s2c, c2s := p.s2c, p.c2s
 	issued := p.issued
 	p.mu.Unlock()
+	if len(before) == 0 {
+		before = issued // the key exchange happened inside this call
+	}
 	reqid := ntsreq.UniqueID.ID
 	var ds []dgram
 	for k, kind := range script {
@@ -262,10 +311,17 @@ func (p *clPeer) exchange(r *lib.Rng, c *client.IPClient, script []string, deadl
 	}
 	// two datagrams that cannot be decoded end every script: the client never waits in vain
 	ds = append(ds, dgram{b: []byte{0xe0}}, dgram{b: []byte{0xe1}})
-	for _, d := range ds {
-		if _, err := p.udp.WriteToUDPAddrPort(d.b, from); err != nil {
+	send := func(b []byte) {
+		if c.scion && len(b) > 1 {
+			b = (&scPkt{srcIA: rq.dstIA, dstIA: rq.srcIA, srcIP: rq.dstIP, dstIP: rq.srcIP, sport: rq.dport, dport: rq.sport,
+				payload: b, spi: scion.PacketAuthSPIServer}).build()
+		}
+		if _, err := p.udp.WriteToUDPAddrPort(b, from); err != nil {
 			panic(err)
 		}
+	}
+	for _, d := range ds {
+		send(d.b)
 	}
 	hung := false
 	select {
@@ -273,7 +329,7 @@ func (p *clPeer) exchange(r *lib.Rng, c *client.IPClient, script []string, deadl
 	case <-time.After(20 * time.Second):
 		hung = true
 		for i := 0; i < 4; i++ {
-			_, _ = p.udp.WriteToUDPAddrPort([]byte{0xe2}, from)
+			send([]byte{0xe2})
 		}
 		<-done
 	}
@@ -290,29 +346,24 @@ func (p *clPeer) exchange(r *lib.Rng, c *client.IPClient, script []string, deadl
 			used = 99
 		}
 	}
-	// cookies of datagrams other than the genuine response that ended up in the client's store
-	leak := 0
-	for _, st := range c.Auth.NTSKEFetcher.VerifData().Cookie {
-		for _, d := range ds {
-			for _, f := range d.forged {
-				if bytes.Equal(st, f) {
-					leak++
-				}
-			}
-		}
+	// what reached the client's cookie store in this call: everything but the cookies of
+	// the genuine response, if that is the datagram used, is a leak
+	stored := minus(c.store(), before)
+	if used >= 0 && int(used) < len(script) && ds[used].genuine {
+		stored = minus(stored, ds[used].cookies)
 	}
-	_ = issued
+	leak := len(stored)
 	var hs []*honest
 	var bs [][]byte
 	var ents []string
 	var next *prevExchange
-	for i, d := range ds {
+	for _, d := range ds {
 		bs = append(bs, d.b)
 		if d.h != nil {
 			hs = append(hs, d.h)
 		}
-		if i < len(script) && script[i] == "G" && next == nil {
-			next = &prevExchange{b: d.b, h: d.h}
+		if d.genuine && next == nil {
+			next = &prevExchange{b: d.b, h: d.h, cookies: d.cookies}
 		}
 		func() {
 			defer func() { recover() }()
@@ -340,64 +391,99 @@ func (p *clPeer) exchange(r *lib.Rng, c *client.IPClient, script []string, deadl
 	} else {
 		tags += ",nogenuine"
 	}
-	w.Case("cl.ip", tags,
+	w.Case(c.kind, tags,
 		lib.V(HL(hs), BL(bs), lib.B(s2c), lib.B(reqid), tab(ents...), lib.Bool(deadline)),
 		lib.V(lib.I(used), lib.I(int64(leak))))
 	return next
 }
 
-func newNTSClient(p *clPeer) *client.IPClient {
+func configFetcher(f *ntske.Fetcher, p *clPeer) {
+	f.Log = slog.New(quietHandler{})
+	f.TLSConfig.InsecureSkipVerify = true
+	f.TLSConfig.ServerName = p.ip.String()
+	f.TLSConfig.MinVersion = tls.VersionTLS13
+	f.Port = fmt.Sprint(p.kePort)
+}
+
+func newIPClient(p *clPeer) *clientUT {
 	quiet := slog.New(quietHandler{})
 	c := &client.IPClient{Log: quiet}
 	c.Auth.Enabled = true
-	c.Auth.NTSKEFetcher.Log = quiet
-	c.Auth.NTSKEFetcher.TLSConfig.InsecureSkipVerify = true
-	c.Auth.NTSKEFetcher.TLSConfig.ServerName = p.ip.String()
-	c.Auth.NTSKEFetcher.TLSConfig.MinVersion = tls.VersionTLS13
-	c.Auth.NTSKEFetcher.Port = fmt.Sprint(p.kePort)
-	return c
+	configFetcher(&c.Auth.NTSKEFetcher, p)
+	la := &net.UDPAddr{IP: p.ip}
+	ra := &net.UDPAddr{IP: p.ip, Port: p.port()}
+	return &clientUT{kind: "cl.ip",
+		call: func(ctx context.Context) (time.Duration, error) {
+			_, off, err := client.MeasureClockOffsetIP(ctx, quiet, c, la, ra)
+			return off, err
+		},
+		store: func() [][]byte { return c.Auth.NTSKEFetcher.VerifData().Cookie }}
 }
 
-var forgedKinds = []string{"T", "H", "K", "D", "U", "R"}
+func newSCIONClient(p *clPeer) *clientUT {
+	quiet := slog.New(quietHandler{})
+	c := &client.SCIONClient{Log: quiet}
+	c.Auth.Enabled = true
+	c.Auth.DRKeyFetcher = scion.NewFetcher(nil)
+	c.Auth.NTSEnabled = true
+	configFetcher(&c.Auth.NTSKEFetcher, p)
+	ia := addr.IA(cliIA)
+	return &clientUT{kind: "cl.scion", scion: true,
+		call: func(ctx context.Context) (time.Duration, error) {
+			la := udp.UDPAddr{IA: ia, Host: &net.UDPAddr{IP: p.ip}}
+			ra := udp.UDPAddr{IA: ia, Host: &net.UDPAddr{IP: p.ip, Port: p.port()}}
+			ps := []snet.Path{spath.Path{Src: ia, Dst: ia, DataplanePath: spath.Empty{},
+				NextHop: &net.UDPAddr{IP: p.ip, Port: p.port()}}}
+			_, off, err := client.MeasureClockOffsetSCION(ctx, quiet, []*client.SCIONClient{c}, la, ra, ps)
+			return off, err
+		},
+		store: func() [][]byte { return c.Auth.NTSKEFetcher.VerifData().Cookie }}
+}
+
+var forgedKinds = []string{"T", "H", "K", "D", "U", "R", "P"}
 
 func clientCases(r *lib.Rng, thorough bool) {
 	p := getPeer(r.U64())
-	// one client per script: a first genuine exchange (so that there is a response to
-	// replay), then the scripted one
-	run := func(script []string, deadline bool) {
-		c := newNTSClient(p)
-		prev := p.exchange(r, c, []string{"G"}, deadline, nil)
-		p.exchange(r, c, script, deadline, prev)
-	}
-	for _, dl := range []bool{true, false} {
-		// every forged kind alone, before the genuine response, and every ordered pair
-		for _, a := range forgedKinds {
-			run([]string{a}, dl)
-			run([]string{a, "G"}, dl)
-			for _, b := range forgedKinds {
-				run([]string{a, b}, dl)
-				if dl && (thorough || r.Intn(3) == 0) {
-					run([]string{a, b, "G"}, dl)
+	for _, mk := range []func(*clPeer) *clientUT{newIPClient, newSCIONClient} {
+		// one client per script: a first genuine exchange (so that there is a response to
+		// replay), then the scripted one
+		run := func(script []string, deadline bool) {
+			c := mk(p)
+			prev := p.exchange(r, c, []string{"G"}, deadline, nil)
+			p.exchange(r, c, script, deadline, prev)
+		}
+		for _, dl := range []bool{true, false} {
+			// every forged kind alone, before the genuine response, and every ordered pair
+			for _, a := range forgedKinds {
+				run([]string{a}, dl)
+				run([]string{a, "G"}, dl)
+				for _, b := range forgedKinds {
+					if dl || thorough || r.Intn(3) == 0 {
+						run([]string{a, b}, dl)
+					}
+					if dl && (thorough || r.Intn(4) == 0) {
+						run([]string{a, b, "G"}, dl)
+					}
 				}
 			}
 		}
-	}
-	n := 40
-	if thorough {
-		n = 600
-	}
-	for i := 0; i < n; i++ {
-		var script []string
-		for k := r.Intn(4); k > 0; k-- {
-			script = append(script, forgedKinds[r.Intn(len(forgedKinds))])
+		n := 30
+		if thorough {
+			n = 500
 		}
-		if r.Intn(3) != 0 {
-			script = append(script, "G")
+		for i := 0; i < n; i++ {
+			var script []string
+			for k := r.Intn(4); k > 0; k-- {
+				script = append(script, forgedKinds[r.Intn(len(forgedKinds))])
+			}
+			if r.Intn(3) != 0 {
+				script = append(script, "G")
+			}
+			if len(script) == 0 {
+				script = []string{"G"}
+			}
+			run(script, r.Intn(4) != 0)
 		}
-		if len(script) == 0 {
-			script = []string{"G"}
-		}
-		run(script, r.Intn(4) != 0)
 	}
 }
 
